@@ -346,7 +346,10 @@ def _driver(rec, case, h):
         if Fn is not None and np.shape(Fn) == np.shape(xn) and np.abs(np.asarray(Fn) - F(xn)).max() > 1e-9 * (np.abs(F(xn)).max() + 1):
             bad('the right-hand side handed back by a step is F of the new state', attempt=i); return
         if e['type'] == 'ros':
-            ref_new, ref_est, cond, scale = _ros_ref(e['A'], e['Gamma'], e['b'], e['b_hat'], Md, F, Jd, e['x'], e['tau'])
+            with np.errstate(all='ignore'):
+                ref_new, ref_est, cond, scale = _ros_ref(e['A'], e['Gamma'], e['b'], e['b_hat'], Md, F, Jd, e['x'], e['tau'])
+            if not (np.all(np.isfinite(ref_new)) and np.isfinite(cond) and np.isfinite(scale)):
+                rec.count('attempt_reference_not_finite'); continue        # a trial step that overflows (huge tau on a nonlinear problem) decides nothing
             dev = float(np.abs(xn - ref_new).max())
             if ref_est is not None and e['ret'][1] is not None: dev = max(dev, float(np.abs(np.asarray(e['ret'][1], dtype=float).ravel() - ref_est).max()))
             rec.ratio('attempt_vs_textbook_step', dev, 1e-10 * cond * scale * len(e['b']))
